@@ -158,6 +158,23 @@ func (w *regWorld) sync(id string, out int) bool {
 		w.order = no
 		err = w.r.ReleasePlayers(id, ms)
 		vAssert(err == nil, "C09.release-accepted")
+		// each of them is queued for another table (or already handed to one)
+		for _, p := range ms {
+			places := 0
+			for _, q := range w.r.waitingQueue {
+				if q == p {
+					places++
+				}
+			}
+			for _, oms := range w.members {
+				for _, m := range oms {
+					if m == p {
+						places++
+					}
+				}
+			}
+			vAssert(places == 1, "C20.player-of-broken-table-queued-for-another-table")
+		}
 		vCover("reg.break")
 		return true
 	}
